@@ -228,7 +228,7 @@ func runTraceSpec(c *Ctx, module, cfg, dataFile string, evs []map[string]interfa
 func checkC06(c *Ctx) {
 	n := 350
 	if !c.Quick() {
-		n = 6000
+		n = 30000
 	}
 	r := NewRand(c.Seed*7753 + 6)
 	fc := FileCfg{MaxTops: 4, Inline: true, AutoInline: true, MapScripts: true, Formats: true,
@@ -293,7 +293,7 @@ func checkC06(c *Ctx) {
 	// the exhaustive family of occurrence sequences (GenHoist.tla)
 	maxLen, every := 3, 1
 	if !c.Quick() {
-		maxLen, every = 4, 6
+		maxLen, every = 4, 2
 	}
 	fam, ok := cachedGenModule(c, "GenHoist", map[string]int{"MaxLen": maxLen}, "hoists.ndjson")
 	if !ok {
